@@ -148,6 +148,7 @@ class _Rewriter(ast.NodeTransformer):
         self._fresh = 0
         self.namedtuples = namedtuples or {}        # class name -> field names in order (typing.NamedTuple classes of the module)
         self.typeddicts: Set[str] = set()            # TypedDict classes of the module
+        self.fn_names: Set[str] = set()              # names used in the current function (parameters, locals)
         self.dict_locals: Set[str] = set()           # names of the current function known to hold a dict (a **kwargs parameter, or
                                                      # every assignment of the name is a dict display / dict(..) call / dict union)
 
@@ -189,6 +190,9 @@ class _Rewriter(ast.NodeTransformer):
                 names.add(nm)
         # an AugAssign `d |= ..` keeps a dict a dict
         self.dict_locals = names
+        comp_ids = {id(y) for x in ast.walk(node) if isinstance(x, ast.comprehension) for y in ast.walk(x.target)}
+        self.fn_names = {x.id for x in ast.walk(node) if isinstance(x, ast.Name) and id(x) not in comp_ids and
+                         isinstance(x.ctx, (ast.Store, ast.Del))} | params | ({a.kwarg.arg} if a.kwarg else set())
         return saved
 
     def visit_FunctionDef(self, node: ast.FunctionDef) -> ast.AST:
@@ -248,6 +252,19 @@ class _Rewriter(ast.NodeTransformer):
                 if not dup and (in_order or all(_pure(v) for v in by_name.values())):
                     self._hit('NT namedtuple-unpack', node)
                     node.value = _loc(ast.Tuple(elts=[by_name[f] for f in fields], ctx=ast.Load()), c)
+        # X2: `a, b = (P, Q) if c else (R, S)` -> if c: a, b = (P, Q) else: a, b = (R, S)
+        if len(node.targets) == 1 and isinstance(node.targets[0], (ast.Tuple, ast.List)) and isinstance(node.value, ast.IfExp):
+            def all_displays(e: ast.expr) -> bool:
+                if isinstance(e, ast.IfExp):
+                    return all_displays(e.body) and all_displays(e.orelse)
+                return isinstance(e, (ast.Tuple, ast.List)) and len(e.elts) == len(node.targets[0].elts)      # type: ignore[attr-defined]
+            if all_displays(node.value):
+                def build(e: ast.expr) -> List[ast.stmt]:
+                    if isinstance(e, ast.IfExp):
+                        return [_loc(ast.If(test=e.test, body=build(e.body), orelse=build(e.orelse)), node)]
+                    return [_loc(ast.Assign(targets=[copy.deepcopy(node.targets[0])], value=e), node)]
+                self._hit('X2 tuple-ifexp', node)
+                return build(node.value)
         # parallel assignment of displays: `a, b = (X, Y)` with X, Y not reading a or b is `a = X; b = Y`
         if len(node.targets) == 1 and isinstance(node.targets[0], (ast.Tuple, ast.List)) and isinstance(node.value, (ast.Tuple, ast.List)) and \
                 len(node.targets[0].elts) == len(node.value.elts) and all(isinstance(t, ast.Name) for t in node.targets[0].elts) and \
@@ -509,6 +526,8 @@ class _Rewriter(ast.NodeTransformer):
                 return True
             if isinstance(k, ast.Tuple):
                 return all(const(x) for x in k.elts)
+            if isinstance(k, ast.Attribute) and _ref(k):
+                return True         # an enum member / class attribute used as key: compared with ==
             return False
         return bool(e.keys) and all(const(k) for k in e.keys) and all(_pure(v) for v in e.values)
 
@@ -976,8 +995,48 @@ class _Rewriter(ast.NodeTransformer):
         loop = ast.For(target=ast.Name(id=ev, ctx=ast.Store()), iter=call.args[1], body=[step], orelse=[])
         return [_loc(init, like), _loc(loop, like)]
 
+    # CL: `return {K: V for x in X if c}` / `return [E for x in X if c]` whose element calls a private helper -> explicit loop over a
+    #     fresh accumulator (so that the helper can be inlined into the loop body); comprehension targets must not clash with locals
+    def _comp_loop(self, comp: ast.expr, acc: str, like: ast.AST, fn_names: Set[str]) -> Optional[List[ast.stmt]]:
+        if not isinstance(comp, (ast.DictComp, ast.ListComp)) or len(comp.generators) != 1 or comp.generators[0].is_async:
+            return None
+        g = comp.generators[0]
+        elems = [comp.key, comp.value] if isinstance(comp, ast.DictComp) else [comp.elt]
+        calls_private = any(isinstance(x, ast.Call) and ((isinstance(x.func, ast.Attribute) and x.func.attr.startswith('_') and
+                                                          not x.func.attr.startswith('__') and dotted(x.func.value) in ('self', 'cls')) or
+                                                         (isinstance(x.func, ast.Name) and x.func.id.startswith('_') and not x.func.id.startswith('__')))
+                            for e in elems for x in ast.walk(e))
+        if not calls_private:
+            return None
+        tnames = {y.id for y in ast.walk(g.target) if isinstance(y, ast.Name)}
+        if tnames & fn_names:
+            return None
+        if isinstance(comp, ast.DictComp):
+            init: ast.expr = ast.Dict(keys=[], values=[])
+            step: ast.stmt = ast.Assign(targets=[ast.Subscript(value=ast.Name(id=acc, ctx=ast.Load()), slice=comp.key, ctx=ast.Store())], value=comp.value)
+        else:
+            init = ast.List(elts=[], ctx=ast.Load())
+            step = ast.Expr(value=ast.Call(func=ast.Attribute(value=ast.Name(id=acc, ctx=ast.Load()), attr='append', ctx=ast.Load()),
+                                           args=[comp.elt], keywords=[]))
+        body: List[ast.stmt] = [step]
+        for c in reversed(g.ifs):
+            body = [ast.If(test=c, body=body, orelse=[])]
+        loop = ast.For(target=g.target, iter=g.iter, body=body, orelse=[])
+        for x in ast.walk(loop):
+            if isinstance(x, ast.Name) and x.id in tnames and isinstance(x.ctx, ast.Store):
+                pass
+        asg = ast.Assign(targets=[ast.Name(id=acc, ctx=ast.Store())], value=init)
+        return [_loc(asg, like), _loc(loop, like)]
+
     def visit_Return(self, node: ast.Return) -> ast.AST:
         self.generic_visit(node)
+        if isinstance(node.value, (ast.DictComp, ast.ListComp)):
+            self._fresh += 1
+            acc = f'_acc{self._fresh}'
+            pre = self._comp_loop(node.value, acc, node, self.fn_names)
+            if pre is not None:
+                self._hit('CL comprehension-loop', node)
+                return pre + [_loc(ast.Return(value=ast.Name(id=acc, ctx=ast.Load())), node)]
         rc = self._reduce_call(node.value)
         if rc is not None:
             self._fresh += 1
@@ -1557,6 +1616,8 @@ def _triggers(tree: ast.Module) -> bool:
             return True
         elif isinstance(x, ast.Expr) and isinstance(x.value, ast.IfExp):
             return True
+        elif isinstance(x, ast.Assign) and isinstance(x.value, ast.IfExp) and isinstance(x.targets[0], (ast.Tuple, ast.List)):
+            return True
         elif isinstance(x, ast.ExceptHandler) and x.body and isinstance(x.body[0], ast.Assign) and isinstance(x.body[0].value, ast.IfExp):
             return True
         elif isinstance(x, ast.FormattedValue) and isinstance(x.value, ast.Constant):
@@ -1564,6 +1625,8 @@ def _triggers(tree: ast.Module) -> bool:
         elif isinstance(x, ast.ClassDef) and any(dotted(b) in ('NamedTuple', 'typing.NamedTuple') for b in x.bases):
             return True
         elif isinstance(x, (ast.Match, ast.YieldFrom)):
+            return True
+        elif isinstance(x, ast.Return) and isinstance(x.value, (ast.DictComp, ast.ListComp)):
             return True
         elif isinstance(x, ast.While) and isinstance(x.test, ast.Compare) and isinstance(x.test.left, ast.NamedExpr):
             return True
